@@ -124,6 +124,52 @@ def h_filter(d, lens, nwords, batch_form):
     return True
 
 
+def h_history(d, mode):
+    """two calls in one process: the second call is judged on its own inputs (a dictionary object mutated between the calls, or the
+    same dictionary with another category list of the same length)"""
+    from depccg.cat import Category
+    from depccg.types import Token, ScoringResult
+    P = parsing_module()
+    cats = [Category.parse(c) for c in CATS]
+    w = d.string('word', 1, TOKEN)
+    cdict = {'the': [cats[0]], 'a': [cats[1], cats[2]]}
+
+    def call(categories, cd, base):
+        toks = [Token(word=x, lemma='l', pos='P', entity='O', chunk='I') for x in (w, 'the', 'cat')]
+        tag, dep = make_scores(3, len(categories), base)
+        old = [[cell(tag, i, c) for c in range(len(categories))] for i in range(3)]
+        P.apply_category_filters([toks], [ScoringResult(tag, dep)], categories, cd)
+        for i, t in enumerate(toks):
+            listed = None
+            for key, lst in cd.items():
+                if t['word'] == key:
+                    listed = [j for j, c in enumerate(categories) if c in lst]
+            for c in range(len(categories)):
+                new = cell(tag, i, c)
+                if listed is not None and c not in listed:
+                    if new != neg_value():
+                        return ('second-call.unlisted-category-not-masked' if base else 'unlisted-category-not-masked', i, c)
+                elif new != old[i][c]:
+                    return ('second-call.score-changed-where-it-must-not' if base else 'score-changed-where-it-must-not', i, c)
+        return None
+    try:
+        r = call(cats, cdict, 0)
+        if r:
+            return r
+        if mode == 'mutate':
+            del cdict['the']
+            cdict['cat'] = [cats[3]]
+            cdict['a'] = [cats[0]]
+            r = call(cats, cdict, 1)
+        elif mode == 'reorder':
+            r = call(list(reversed(cats)), cdict, 1)
+        else:
+            r = call(cats, {'cat': [cats[2]], 'a': [cats[3]]}, 1)
+    except Exception as e:
+        return ('raises:' + type(e).__name__, sym_str(e))
+    return r or True
+
+
 def h_shape(d, ntok, tag_rows, tag_cols, dep_cols, ncat):
     """inputs whose shapes do not fit are rejected (RuntimeError) - by apply_category_filters' own type check"""
     from depccg.cat import Category
@@ -158,6 +204,8 @@ def obligations(tier):
                     continue
                 yield Obligation('C17.filter[lens=%s,words=%d,%s]' % (list(lens), nwords, 'batch' if batch_form else 'single'), 'h_filter',
                                  dict(lens=list(lens), nwords=nwords, batch_form=batch_form), cost=sum(lens) * nwords)
+    for mode in ('mutate', 'reorder', 'other-dict'):
+        yield Obligation('C17.history[%s]' % mode, 'h_history', dict(mode=mode), cost=5)
     for ntok in (1, 2):
         for tag_rows in (ntok, ntok + 1):
             for tag_cols in (3, 4):
